@@ -306,6 +306,21 @@ def check_C18(ctx):
                 assumptions=["in-process servers; the disk cache and both front ends are configured with the same limit, as main() does"])
 
 
+def check_C20(ctx):
+    g = ctx.bin(GRID)
+    jobs = []
+    for cfg in CONFIGS:
+        jobs.append(Job(g, "TestC20Read", name="C20:read/" + cfg, timeout=1800, env={"VERIF_PARAM_READER": cfg, "GOMAXPROCS": "4"}))
+        jobs.append(Job(g, "TestC20Write", name="C20:write/" + cfg, timeout=1800, env={"VERIF_PARAM_WRITER": cfg, "GOMAXPROCS": "4"}))
+    jobs.append(Job(g, "TestC20Golden", name="C20:golden", timeout=900))
+    jobs.append(Job(ctx.bin("./cache/s3proxy"), "TestVfC20Names", name="C20:names/s3", timeout=300))
+    jobs.append(Job(ctx.bin("./cache/azblobproxy"), "TestVfC20Names", name="C20:names/azblob", timeout=300))
+    return dict(level="exploration", jobs=jobs,
+                rule="(a) files laid out by the harness's independent implementation of the published v2 format: chunk size {4 KiB, 64 KiB, 1 MiB, 3 MiB} x blob sizes around each x encoder {klauspost fastest/default/best, libzstd 1/19} x content kind x suffix shape, identity-compression v2 files, raw .v1 files, AC files with arbitrary suffixes; served by this build in every (storage mode, zstd implementation) through all read paths at boundary offsets; (b) every file this build writes in every configuration (8 sizes x 3 content kinds x 6 write paths) parsed by the independent reader with both zstd decoders and as a plain zstd stream, file names checked against the published naming; (c) a golden directory and name tables produced by the pinned release: read back in all four configurations, file / HTTP URL / gRPC resource / S3 / Azure object names compared tuple by tuple and checked for injectivity",
+                assumptions=["golden files were produced once by the pinned commit (plus the hook commit) with VERIF_REPO pointing at a worktree of it; they are committed under /verif/golden",
+                             "the independent reader/writer (go/vlib/fmt2.go) is written from the format description in casblob.go's header comment and README"])
+
+
 def check_C19(ctx):
     b = ctx.bin("./config")
     jobs = [Job(b, "TestVfC19", name="C19:config", timeout=2400)]
@@ -378,7 +393,7 @@ def check_C13(ctx):
                              "a method unknown to the harness's read-only list is treated as mutating"])
 
 
-CHECKS = {"C01": check_C01, "C02": check_C02, "C08": check_C08, "C09": check_C09, "C06": check_C06, "C10": check_C10, "C11": check_C11, "C12": check_C12, "C13": check_C13, "C14": check_C14, "C15": check_C15, "C16": check_C16, "C17": check_C17, "C18": check_C18, "C19": check_C19, "C03": check_C03, "C04": check_C04, "C05": check_C05, "C07": check_C07}
+CHECKS = {"C01": check_C01, "C02": check_C02, "C08": check_C08, "C09": check_C09, "C06": check_C06, "C10": check_C10, "C11": check_C11, "C12": check_C12, "C13": check_C13, "C14": check_C14, "C15": check_C15, "C16": check_C16, "C17": check_C17, "C18": check_C18, "C19": check_C19, "C20": check_C20, "C03": check_C03, "C04": check_C04, "C05": check_C05, "C07": check_C07}
 
 # per-property manifest metadata
 META = {
@@ -424,6 +439,12 @@ META = {
         note="Channel/pipe interleavings inside the handler are not controlled (Go channel operations cannot be intercepted by import rewriting); inputs are enumerated exhaustively.",
         technique="exhaustive enumeration of bounded message sequences through the real stream handler against a protocol table",
         design_ref="DESIGN.md 3 (C16)"),
+    "C20": dict(
+        category="exploration", engine="E4 grid",
+        text="Format compatibility decided in both directions against an independent implementation of the published v2 layout (skippable-frame header with logical size, compression type, chunk size, offset table; independently compressed chunks; file naming per key space) and against golden artefacts of the pinned release: this build must serve files produced by the independent writer for every chunk size / encoder / suffix shape in the grid, everything it writes must parse with the independent reader using both zstd implementations and follow the naming scheme, the pinned golden directory must read back identically in all configurations, and every file, URL, resource and object name must equal the pinned table and be injective.",
+        note="Chunk sizes and encoder settings are a finite grid; S3/Azure clients are not executed, only their key functions.",
+        technique="exhaustive finite grid with an independent format implementation (both directions) + pinned golden files",
+        design_ref="DESIGN.md 3 (C20)"),
     "C19": dict(
         category="exploration", engine="E4 grid",
         text="Deviation-bounded exhaustive enumeration of configurations through the real front ends (urfave/cli flags incl. their environment variables, and the YAML loader): required settings plus all subsets of up to 2 (3) of 28 settings x values, each given three ways; differential oracle: the three effective Config structs (basic fields) must be identical, no expected values written by hand; deprecated host/port forms mean the same as the address forms; 21 classes of set-ups that cannot work (missing dir/max_size, unknown storage mode or zstd implementation, one port for HTTP and gRPC, half-specified TLS, mTLS without server certificate, unauthenticated reads without authentication, two proxy backends, non-positive blob limits, malformed listener addresses, asset API without gRPC) must be refused by all three front ends, alone and next to every other valid deviation.",
